@@ -64,11 +64,20 @@ def check(ctx):
     if len(params) < 2:
         raise AnalysisError("_parse_binary_expression no longer takes (min_prec, lhs): climbing schema not recognised")
     minp, lhsp = params[0], params[1]
+    # helpers of the class that just return an entry of the table (or None): `prec = self._peek_binary_prec()` reads a precedence too
+    prec_helpers = set()
+    for hname, h in px.methods("CParser").items():
+        rets = [r.value for r in ast.walk(h) if isinstance(r, ast.Return) and r.value is not None and not (isinstance(r.value, ast.Constant) and r.value.value is None)]
+        if hname != fn.name and rets and all(isinstance(v, ast.Subscript) and isinstance(v.value, ast.Name) and v.value.id == "_BINARY_PRECEDENCE" for v in rets):
+            prec_helpers.add(hname)
     prec_vars = {}
     for n in ast.walk(fn):
-        if isinstance(n, ast.Assign) and len(n.targets) == 1 and isinstance(n.targets[0], ast.Name) and isinstance(n.value, ast.Subscript) \
-                and isinstance(n.value.value, ast.Name) and n.value.value.id == "_BINARY_PRECEDENCE":
-            prec_vars[n.targets[0].id] = (n, _loop_depth(n))
+        if isinstance(n, ast.Assign) and len(n.targets) == 1 and isinstance(n.targets[0], ast.Name):
+            v = n.value
+            reads = (isinstance(v, ast.Subscript) and isinstance(v.value, ast.Name) and v.value.id == "_BINARY_PRECEDENCE") or \
+                    (isinstance(v, ast.Call) and isinstance(v.func, ast.Attribute) and v.func.attr in prec_helpers)
+            if reads:
+                prec_vars[n.targets[0].id] = (n, _loop_depth(n))
     if len(prec_vars) != 2:
         raise AnalysisError(f"precedence-climbing schema not recognised in _parse_binary_expression (precedence variables found: {sorted(prec_vars)})")
     by_line = sorted(prec_vars, key=lambda k: prec_vars[k][0].lineno)
@@ -78,41 +87,76 @@ def check(ctx):
     if not ok:
         ctx.violation("R-C02.2", "climb-absorb-once", f"in _parse_binary_expression the look-ahead precedence `{inner}` is read at loop depth {prec_vars[inner][1]} (the operator's own `{outer}` at depth {prec_vars[outer][1]}): the right operand must absorb tighter "
                       "operators in a loop of its own - with a single step `i < a * b + c` groups as `(i < a * b) + c`", file=px.rel, function="CParser._parse_binary_expression", line=prec_vars[inner][0].lineno)
+    FLIP = {"Lt": "Gt", "Gt": "Lt", "LtE": "GtE", "GtE": "LtE"}
+    NEG = {"Lt": "GtE", "GtE": "Lt", "Gt": "LtE", "LtE": "Gt"}
+    rec_calls = [c for c in ast.walk(fn) if isinstance(c, ast.Call) and isinstance(c.func, ast.Attribute) and c.func.attr == "_parse_binary_expression"]
+
+    def role(cmp_node):
+        """('break' | 'recurse', effective operator) : what happens when the comparison holds, read off the enclosing `if`"""
+        cur, neg = cmp_node, False
+        par = getattr(cur, "_parent", None)
+        while isinstance(par, (ast.BoolOp, ast.UnaryOp)):
+            if isinstance(par, ast.UnaryOp) and isinstance(par.op, ast.Not):
+                neg = not neg
+            cur, par = par, getattr(par, "_parent", None)
+        if not isinstance(par, ast.If) or cur is not par.test:
+            return None, None
+        body_breaks = any(isinstance(x, ast.Break) for st in par.body for x in ast.walk(st))
+        else_breaks = any(isinstance(x, ast.Break) for st in par.orelse for x in ast.walk(st))
+        body_recs = any(c in rec_calls for st in par.body for c in ast.walk(st))
+        blk, idx = None, None
+        pp = getattr(par, "_parent", None)
+        for field in ("body", "orelse"):
+            bl = getattr(pp, field, None)
+            if isinstance(bl, list) and any(x is par for x in bl):
+                blk, idx = bl, [i for i, x in enumerate(bl) if x is par][0]
+        after_recs = blk is not None and any(c in rec_calls for st in blk[idx + 1:] for c in ast.walk(st))
+        if body_recs and (else_breaks or not par.orelse):
+            return "recurse", neg
+        if body_breaks and (after_recs or any(c in rec_calls for st in par.orelse for c in ast.walk(st))):
+            return "break-else-recurse", neg
+        if body_breaks:
+            return "break", neg
+        return None, None
     found_exit = found_rec = False
     for n in ast.walk(fn):
-        if isinstance(n, ast.Compare) and len(n.ops) == 1:
+        if isinstance(n, ast.Compare) and len(n.ops) == 1 and isinstance(n.left, ast.Name) and isinstance(n.comparators[0], ast.Name):
             l, r = n.left, n.comparators[0]
-            names = {x.id for x in (l, r) if isinstance(x, ast.Name)}
+            names = {l.id, r.id}
             op = type(n.ops[0]).__name__
+            if op not in FLIP:
+                continue
             if names == {outer, minp}:
-                # normalise to outer <op> min_prec
-                if isinstance(l, ast.Name) and l.id == minp:
-                    op = {"Lt": "Gt", "Gt": "Lt", "LtE": "GtE", "GtE": "LtE"}.get(op, op)
-                par = getattr(n, "_parent", None)
-                leads_to_break = isinstance(par, ast.If) and any(isinstance(s, ast.Break) for s in par.body)
-                ok = op == "Lt" and leads_to_break
+                if l.id == minp:
+                    op = FLIP[op]
+                what, neg = role(n)
+                if neg:
+                    op = NEG[op]
+                ok = op == "Lt" and what in ("break", "break-else-recurse")
                 found_exit = True
                 ctx.oblige("R-C02.2", "loop exit: prec < min_prec", ok, sample={"rule": "R-C02.2", "construct": S.unparse(n), "verdict": "strict" if ok else "NOT the schema"})
                 if not ok:
                     ctx.violation("R-C02.2", f"climb-exit:{op}", f"the climbing loop must stop exactly when the operator's precedence is strictly below the bound (`{outer} < {minp}: break`); found `{S.unparse(n)}`: operators of the bound's own level would be "
                                   f"{'left to an outer call (right-to-left grouping)' if op == 'LtE' else 'mis-grouped'}", file=px.rel, function="CParser._parse_binary_expression", line=n.lineno)
             if names == {outer, inner}:
-                if isinstance(l, ast.Name) and l.id == outer:
-                    op = {"Lt": "Gt", "Gt": "Lt", "LtE": "GtE", "GtE": "LtE"}.get(op, op)
-                par = getattr(n, "_parent", None)
-                rec = [c for c in ast.walk(par) if isinstance(c, ast.Call) and isinstance(c.func, ast.Attribute) and c.func.attr == "_parse_binary_expression"] if isinstance(par, ast.If) else []
-                rec_in_body = [c for s in (par.body if isinstance(par, ast.If) else []) for c in ast.walk(s) if c in rec]
-                ok = op == "Gt" and bool(rec_in_body)
+                if l.id == outer:
+                    op = FLIP[op]
+                what, neg = role(n)
+                if neg:
+                    op = NEG[op]
+                # recursion must happen exactly for inner > outer: either `if inner > outer: recurse` or `if ... inner <= outer: break` followed by the recursion
+                ok = (what == "recurse" and op == "Gt") or (what == "break-else-recurse" and op == "LtE")
                 found_rec = True
-                ctx.oblige("R-C02.2", "recursion only for strictly tighter operator", ok, sample={"rule": "R-C02.2", "construct": S.unparse(n), "verdict": "strict" if ok else "NOT the schema"})
+                eff = op if what == "recurse" else NEG.get(op, op)
+                ctx.oblige("R-C02.2", "recursion only for strictly tighter operator", ok, sample={"rule": "R-C02.2", "construct": S.unparse(n), "recursion happens when": f"{inner} {eff} {outer}", "verdict": "strict" if ok else "NOT the schema"})
                 if not ok:
-                    ctx.violation("R-C02.2", f"climb-rec:{op}", f"the right operand may be extended only by strictly tighter operators (`{inner} > {outer}`); found `{S.unparse(n)}`: operators of equal precedence would associate to the right", file=px.rel,
+                    ctx.violation("R-C02.2", f"climb-rec:{eff}", f"the right operand may be extended only by strictly tighter operators (`{inner} > {outer}`); found `{S.unparse(n)}` (recursion when {inner} {eff} {outer}): operators of equal precedence would associate to the right", file=px.rel,
                                   function="CParser._parse_binary_expression", line=n.lineno)
-                for c in rec_in_body:
-                    a_ok = (len(c.args) == 2 and isinstance(c.args[0], ast.Name) and c.args[0].id == inner and isinstance(c.args[1], ast.Name))
-                    ctx.oblige("R-C02.2", "recursive call passes (next_prec, rhs)", a_ok)
-                    if not a_ok:
-                        ctx.violation("R-C02.2", "climb-rec-args", f"the recursive call must pass the tighter operator's precedence and the right operand parsed so far; found `{S.unparse(c)}`", file=px.rel, function="CParser._parse_binary_expression", line=c.lineno)
+    for c in rec_calls:
+        a_ok = (len(c.args) == 2 and isinstance(c.args[0], ast.Name) and c.args[0].id == inner and isinstance(c.args[1], ast.Name))
+        ctx.oblige("R-C02.2", "recursive call passes (next_prec, rhs)", a_ok)
+        if not a_ok:
+            ctx.violation("R-C02.2", "climb-rec-args", f"the recursive call must pass the tighter operator's precedence and the right operand parsed so far; found `{S.unparse(c)}`", file=px.rel, function="CParser._parse_binary_expression", line=c.lineno)
     if not (found_exit and found_rec):
         raise AnalysisError("precedence-climbing schema not recognised in _parse_binary_expression (exit test or recursion test missing)")
     ctx.require_instances("R-C02.2", 3)
@@ -120,8 +164,11 @@ def check(ctx):
     # ---- R-C02.4 -------------------------------------------------------------------
     _check_concat(ctx, px)
     # ---- R-C02.3 -------------------------------------------------------------------
-    n = WCm.run_group(ctx, "R-C02.3", WCm.EXPR, lambda label, field: not WCm.is_coord_field(label, field) and not label.startswith("call:_parse_error"),
+    # (the type string that _parse_constant computes from the suffix is decided semantically by R-C10.3, not by comparing how it is computed)
+    n = WCm.run_group(ctx, "R-C02.3", WCm.EXPR - {"_parse_constant"}, lambda label, field: not WCm.is_coord_field(label, field) and not label.startswith("call:_parse_error"),
                       "expression tree wiring deviates from C's grammar", returns=True, appends=True)
+    n += WCm.run_group(ctx, "R-C02.3", {"_parse_constant"}, lambda label, field: not WCm.is_coord_field(label, field) and not label.startswith("call:_parse_error") and not (label == "Constant" and field == "type"),
+                       "expression tree wiring deviates from C's grammar", returns=True, appends=True)
     ctx.unit("expression productions compared", n)
     ctx.require_instances("R-C02.3", 60)
     ctx.info["explanation"] = ("order comparison of the folded precedence table with C99's ten levels (all operator pairs); relational recognition of the precedence-climbing schema; flow-sensitive "
